@@ -55,6 +55,29 @@ def sky_roundtrip(ctx, rnd, s, win, wlo, whi, idx, wcs_pool):
             ctx.violation(f'C08|sky-identity|{kind_sig(s)}', f'{int((whole != parts).sum()) if whole.shape == parts.shape else "all"} sky positions: the sky compound does not answer '
                           f'{s["op"]}(answers of its operands)', case)
             return
+    if s['k'] in ('cannulus', 'eannulus', 'rannulus'):
+        # an annulus is outer minus inner on the sky as well: its sky image has the parameters of the sky images of its outer and
+        # inner shapes (two code paths that must agree on every convention, the angle's zero direction included)
+        import regions as R
+        try:
+            if s['k'] == 'cannulus':
+                parts = [(R.CirclePixelRegion(region.center, region.inner_radius).to_sky(w), ('inner_radius',), ('radius',)),
+                         (R.CirclePixelRegion(region.center, region.outer_radius).to_sky(w), ('outer_radius',), ('radius',))]
+            else:
+                cls = R.EllipsePixelRegion if s['k'] == 'eannulus' else R.RectanglePixelRegion
+                parts = [(cls(region.center, region.inner_width, region.inner_height, angle=region.angle).to_sky(w), ('inner_width', 'inner_height', 'angle'), ('width', 'height', 'angle')),
+                         (cls(region.center, region.outer_width, region.outer_height, angle=region.angle).to_sky(w), ('outer_width', 'outer_height', 'angle'), ('width', 'height', 'angle'))]
+            for part, mine, theirs in parts:
+                sep = float(part.center.separation(sky.center).deg)
+                bad = [a for a, b in zip(mine, theirs)
+                       if not abs(float(getattr(sky, a).to_value('deg')) - float(getattr(part, b).to_value('deg'))) <= 1e-9 * max(1.0, abs(float(getattr(part, b).to_value('deg'))))]
+                if sep > 1e-10 or bad:
+                    ctx.violation(f'C08|sky-annulus-parts|{s["k"]}', f'the sky image of the annulus differs from the sky image of its {mine[0].split("_")[0]} shape in {bad or "centre"}',
+                                  dict(case, annulus=repr(sky), part=repr(part)))
+                    return
+        except Exception as ex:  # noqa
+            ctx.violation(f"C08|sky-annulus-parts|{s['k']}|{type(ex).__name__}", f'converting the outer/inner shape raised {ex!r}', case)
+            return
     if wname.startswith('TAN-SIP'):
         return          # a distorted WCS does not map shapes onto shapes: only the identity above is exact
     if dict(pix.meta) != dict(region.meta) or dict(pix.visual) != dict(region.visual):
